@@ -40,6 +40,7 @@ package values
 // ghost bookkeeping of refusals (C13): real code cannot touch ghost state, so this clause is assumed at call sites
 //@   assumed ensures checkFailures == old(checkFailures) + ite(err == nil, 0, 1)
 //@   ensures err == nil ==> v != nil
+//@   ensures errWF(err)
 //@   ensures {C17} string-kept: gnmiTv != nil && isType(gnmiTv.Value, "*gnmi.TypedValue_StringVal") && asType(gnmiTv.Value, "*gnmi.TypedValue_StringVal") != nil ==> err == nil && v.Type == configapi.ValueType_STRING && tvString(v) == asType(gnmiTv.Value, "*gnmi.TypedValue_StringVal").StringVal
 //@   ensures {C17} ascii-kept: gnmiTv != nil && isType(gnmiTv.Value, "*gnmi.TypedValue_AsciiVal") && asType(gnmiTv.Value, "*gnmi.TypedValue_AsciiVal") != nil ==> err == nil && v.Type == configapi.ValueType_STRING && tvString(v) == asType(gnmiTv.Value, "*gnmi.TypedValue_AsciiVal").AsciiVal
 //@   ensures {C17} int-kept: gnmiTv != nil && isType(gnmiTv.Value, "*gnmi.TypedValue_IntVal") && asType(gnmiTv.Value, "*gnmi.TypedValue_IntVal") != nil && modelWidth(modelPath) <= 64 ==> err == nil && v.Type == configapi.ValueType_INT && tvInt(v) == asType(gnmiTv.Value, "*gnmi.TypedValue_IntVal").IntVal && tvWidth(v) == modelWidth(modelPath)
@@ -55,6 +56,7 @@ package values
 //@   requires gnmiLl != nil && (gnmiLl.LeaflistVal != nil ==> (forall e in gnmiLl.LeaflistVal.Element :: e != nil && wireValidScalar(e)))
 //@   modifies nothing
 //@   ensures err == nil ==> v != nil
+//@   ensures errWF(err)
 //@   fresh v
 
 //@ func NativeTypeToGnmiTypedValue(typedValue) (g, err)
@@ -75,4 +77,5 @@ package values
 //@   modifies nothing
 //@   ensures err == nil ==> cv != nil
 //@   ensures err != nil ==> cv == nil
+//@   ensures errWF(err)
 //@   fresh cv
